@@ -12,10 +12,10 @@ orders 2..4, seeded random + adversarial histories for orders 2..13.
     python3 -m cjv.chk_c17 quick|thorough
     python3 -m cjv.chk_c17 replay /verif/replays/<file>.json
 """
-import collections, json, multiprocessing, os, random, subprocess, sys, time
+import collections, json, multiprocessing, os, random, re, subprocess, sys, time
 
 from . import build, runner
-from .sim import crash_key
+from .sim import crash_key, default_env
 
 TYPES = ("string", "uint32", "uint64")
 ORDERS = tuple(range(2, 14))
@@ -301,6 +301,61 @@ def expectations(sigs):
     return missing
 
 
+def table_wrapper_results(tier):
+    """the path-index wrappers of src/table.c (what the daemon actually calls) against a linear reference map: keys incl. the
+    empty string, prefixes of each other, case variants, long keys and groups that share a home bucket"""
+    import random
+    from . import model
+    out = []
+    for cfgname in ("default", "odd"):
+        cfg = build.cfg_of(cfgname)
+        order = int(cfg["CONFIG_ELEMENT_TABLE_ORDER"])
+        try:
+            binary = build.build(kind="tablew", config=cfgname, cjet_units=["table.c", "alloc.c"], wraps=[], main_rename=False,
+                                 extra_sources=[os.path.join(build.VERIF, "harness", "tablew", "tablew.c")])
+        except build.BuildError as e:
+            r = runner.Result(dict(kind="tablew", config=cfgname))
+            r.viol.append(("ht/table-wrapper-harness-does-not-build", str(e)[:1500]))
+            out.append(r)
+            continue
+        keys = ["", "a", "a/b", "a/b/c", "A", "a/", "/", " ", "p" * 255, "p" * 254, "\u00e4", "x\ty"]
+        keys += model.colliding_paths(order, 6, prefix="k") + model.colliding_paths(order, 6, prefix="w", bucket=(1 << order) - 1)
+        # prefix pairs that share a bucket
+        base = "z"
+        found = 0
+        i = 0
+        while found < 3 and i < 400000:
+            s = "%s/%d" % (base, i)
+            if model.string_hash(s, order) == model.string_hash(base, order):
+                keys.append(s)
+                found += 1
+            i += 1
+        keys.append(base)
+        for rep in range(3 if tier == "quick" else 40):
+            seed_ = runner.seed() * 101 + rep if hasattr(runner, "seed") else rep
+            args = [binary, str(seed_ % (1 << 31)), str(4000 if tier == "quick" else 20000)] + [k.encode("utf-8").hex() or "-" for k in keys]
+            p = subprocess.run(args, stdout=subprocess.PIPE, stderr=subprocess.PIPE, env=default_env(), timeout=300)
+            txt = p.stdout.decode("utf-8", "replace")
+            r = runner.Result(dict(kind="tablew", config=cfgname, seed=seed_, type="string", order=order))
+            r.stats["ops"] += 0
+            m = re.search(r"done ops=(\d+) puts=(\d+) gets=(\d+) removes=(\d+) full=(\d+)", txt)
+            if m:
+                r.stats["table-wrapper-ops"] += int(m.group(1))
+                r.sigs.add(("tablew", cfgname, int(m.group(5)) > 0))
+            for line in txt.splitlines():
+                if line.startswith("VIOL "):
+                    kind_ = line.split()[1]
+                    r.viol.append(("ht/table-wrapper:" + kind_, line[:300] + " (keys: %r...)" % keys[:6]))
+            ck = crash_key(p.returncode if not r.viol else 0, p.stderr.decode("utf-8", "replace"))
+            if ck:
+                r.viol.append(("ht/table-wrapper-crash:" + ck, p.stderr.decode("utf-8", "replace")[:1500]))
+            elif not m and not r.viol:
+                r.inconclusive = "table wrapper harness printed no summary (rc %r)" % p.returncode
+            r.sample = {"keys": keys[:8], "summary": txt.splitlines()[-1:] }
+            out.append(r)
+    return out
+
+
 def main(tier):
     global _BINARY
     t0 = time.time()
@@ -336,6 +391,7 @@ def main(tier):
         "signatures": sorted("%s/%d:%s" % s for s in allsigs),
         "expected_but_unobserved": missing,
     }
+    results += table_wrapper_results(tier)
     code = runner.report(prop="C17", level="exploration", results=repro + results, rule=RULE, t0=t0, tier_name=tier,
                          assumptions=ASSUMPTIONS, extra_cov=extra,
                          min_events={"put-with-displacement": 1, "displaced-wrapped": 1, "put-wrapped": 1, "put-full": 1,
